@@ -28,7 +28,7 @@ LEVEL = "exploration"
 # python value trees: None, bool, int, float, str, list, dict
 
 def py_values(thorough):
-    scal = [None, True, False, 0, 1, -1, 2 ** 53 + 1, 2 ** 63 - 1, -2 ** 63, 0.5, -1.5, 1e20, 1e-7, 1.7976931348623157e308, 5e-324, 1.0, 100.0]
+    scal = [None, True, False, 0, 1, -1, 2 ** 53 + 1, 2 ** 63 - 1, -2 ** 63, 2 ** 63, 2 ** 63 + 1, 2 ** 64 - 1, 2 ** 64, -2 ** 63 - 1, 10 ** 30, 0.5, -1.5, 1e20, 1e-7, 1.7976931348623157e308, 5e-324, 1.0, 100.0]
     strs = ["", "a", "true", "null", "~", "1", "1.0", "yes", "a: b", "- x", "#c", " lead", "trail ", "l1\nl2", "x\n", "\t", "\"", "'", "\\", "é", "日本",
             "😀", "a" * 100, "\u0001", "\u007f", "[x]", "{x}", "a,b", "k=v", "0x1F", "1e3", ".5", "+1", "---", "...", "?", "<<", "*a", "&a", "!t", "%", "@", "`", "|", ">"]
     for s in scal:
@@ -309,6 +309,25 @@ class OutsideSubset(Exception):
     (non-string or merge keys): left unjudged"""
 
 
+def beyond_agreement(v, typ):
+    """integers outside the range on which the format's decoders agree: TOML defines integers as
+    64-bit signed (a decoder must reject others, python's accepts them); YAML decoders part ways
+    from 2^64 (and below -2^63). JSON numbers of any size are judged (integers beyond i64 as floats)."""
+    if isinstance(v, bool):
+        return False
+    if isinstance(v, int):
+        if typ == "toml":
+            return not (-2 ** 63 <= v <= 2 ** 63 - 1)
+        if typ == "yaml":
+            return not (-2 ** 63 <= v <= 2 ** 64 - 1)
+        return False
+    if isinstance(v, dict):
+        return any(beyond_agreement(x, typ) for x in v.values())
+    if isinstance(v, list):
+        return any(beyond_agreement(x, typ) for x in v)
+    return False
+
+
 def py_from_decoded(d):
     """decoder output -> python value"""
     if isinstance(d, dict):
@@ -349,7 +368,10 @@ def work(chunk):
                 # corrupted input: the independent decoder decides
                 try:
                     text = data.decode("utf-8")
-                    want = ("value", expected_wire(py_from_decoded(decode_independent(typ, text))))
+                    dec = py_from_decoded(decode_independent(typ, text))
+                    if beyond_agreement(dec, typ):
+                        raise OutsideSubset("integer beyond the range the format's decoders agree on")
+                    want = ("value", expected_wire(dec))
                 except OutsideSubset:
                     hist["%s-%s:unjudged(outside subset)" % (typ, cls)] = hist.get("%s-%s:unjudged(outside subset)" % (typ, cls), 0) + 1
                     continue
@@ -487,12 +509,15 @@ def cases(thorough):
         docs["json"].append(json.dumps(v, ensure_ascii=False))
         for style in ("block", "flow"):
             for quote in ("plain", "single", "double"):
+                if beyond_agreement(v, "yaml"):
+                    continue
                 t = yaml_doc(v, style, quote)
                 yield (cls + ":" + style + "-" + quote, "yaml", t.encode("utf-8"), ("value", w))
-        docs["yaml"].append(yaml_doc(v, "block", "plain"))
+        if not beyond_agreement(v, "yaml"):
+            docs["yaml"].append(yaml_doc(v, "block", "plain"))
         for style in ("inline", "sections"):
             t = toml_doc(v, style)
-            if t is not None:
+            if t is not None and not beyond_agreement(v, "toml"):
                 yield (cls + ":" + style, "toml", t.encode("utf-8"), ("value", w))
                 docs["toml"].append(t)
     # str
@@ -519,6 +544,8 @@ def cases(thorough):
     ndocs = 30 if thorough else 10
     for typ in ("json", "toml", "yaml"):
         pool = sorted(set(docs[typ]), key=lambda s: (-min(len(s), 60), s))[:ndocs]
+        # and the shortest documents that hold a non-ASCII string (a cut or a foreign byte inside a multi-byte character)
+        pool += sorted((x for x in set(docs[typ]) if any(ord(ch) > 127 for ch in x) and x not in pool), key=len)[:3]
         for doc in pool:
             b = doc.encode("utf-8")
             if len(b) > 120:
@@ -526,7 +553,7 @@ def cases(thorough):
             for cut in range(0, len(b)):
                 yield ("truncated", typ, b[:cut], ("decoder",))
             for off in range(len(b)):
-                for ch in (b"{", b'"', b":", b"\x00"):
+                for ch in (b"{", b'"', b":", b"\x00", b"\xff", b"\x80"):
                     if b[off:off + 1] != ch:
                         yield ("corrupted", typ, b[:off] + ch + b[off + 1:], ("decoder",))
 
@@ -538,7 +565,7 @@ def run(ctx):
     ctx.rule = ("~190 value trees (scalars incl. integer/float extremes, 45 format-significant strings as value and as key, nesting, empties, "
                 "mixed lists) written by Python as JSON (compact, indented, ASCII-escaped), YAML (block/flow x plain/single/double quoting) and "
                 "TOML (inline tables / [sections] and [[arrays of tables]]); text files for str; every byte string of length <= 4 over "
-                "{00 41 0A FB FF} for b64 and b64urlsafe; unknown types; every truncation and every single-byte substitution by {, \", :, NUL of "
+                "{00 41 0A FB FF} for b64 and b64urlsafe; unknown types; every truncation and every single-byte substitution by {, \", :, NUL, 0xFF, 0x80 of "
                 "the longest documents per format (judged by the independent decoder). Each include is one built file; all distinct. Then the same "
                 "file included twice in one build: 4 documents x every ordered pair of 7 include types x {both in one file, either one in an "
                 "imported file} and every triple over {b64, b64urlsafe, json, str}, each binding judged as if it were the only include.")
